@@ -31,7 +31,12 @@ EXPLANATION = (
     'inductive step from an arbitrary loaded state (symbolic current_rep up '
     'to 1e6, symbolic accumulated value).  Lookups run get_pack_indexes / '
     'get_result_values_list on symbolic pairwise distinct parameter values '
-    'and symbolic fixed values.')
+    'and symbolic fixed values; float64 parameter arrays (a code path '
+    'symbolic object arrays cannot take) are probed concretely with grids '
+    'of distinct but close values.  Histories: after a first simulate() one '
+    'unpacked parameter is re-assigned through params[name] = values and '
+    'the second simulate()/simulate(idx) is compared with the reference for '
+    'the NEW grid.')
 
 ASSUMPTIONS = [
     'at most 2 skipped repetitions per variation (1 in the resume harness)',
@@ -114,15 +119,19 @@ def reference(order, rep_max, dec, run=0, start=None, max_attempts=12):
 class SymDec:
     """fresh symbolic decisions, memoised by their semantic key"""
 
-    def __init__(self, ctx, active, max_skips):
+    def __init__(self, ctx, active, max_skips, runs=None):
         self.ctx, self.active, self.max_skips = ctx, set(active), max_skips
+        self.runs = runs  # None: every run; else the runs with symbolic choices
         self._skip, self._keep, self._val, self.nsk = {}, {}, {}, {}
+
+    def _sym(self, run, v):
+        return v in self.active and (self.runs is None or run in self.runs)
 
     def skip(self, run, v, a):
         key = (run, v, a)
         if key not in self._skip:
             r = False
-            if v in self.active:
+            if self._sym(run, v):
                 b = self.ctx.boolean('skip_%d_%d_%d' % key)
                 if self.nsk.get((run, v), 0) >= self.max_skips:
                     self.ctx.assume(~b, 'at most %d skipped repetitions per '
@@ -137,7 +146,7 @@ class SymDec:
         key = (run, v, k, s)
         if key not in self._keep:
             self._keep[key] = bool(self.ctx.boolean(
-                'keep_%d_%d_%d_%d' % key)) if v in self.active else True
+                'keep_%d_%d_%d_%d' % key)) if self._sym(run, v) else True
         return self._keep[key]
 
     def val(self, run, v, a):
@@ -197,25 +206,38 @@ class Log:
         self.keepseen = []
         self.max_attempts = max_attempts
         self.nvar = nvar
+        self.unknown = []   # combinations that are not in the current grid
         self.new_run(0)
-        self.saved = []
-        self.loads = []
 
-    def new_run(self, run):
+    def new_run(self, run, nvar=None):
         self.run = run
+        self.nvar = self.nvar if nvar is None else nvar
         self.att = [0] * self.nvar
         self.succ = [0] * self.nvar
         self.skips = [0] * self.nvar
+        self.saved = []
+        self.loads = []
 
 
-def make_runner(grid, dec, log, rep_max):
-    """The instrumented subclass of the REAL SimulationRunner."""
+UNKNOWN = 1000  # ids >= UNKNOWN: a combination outside the current grid
+
+
+def make_runner(grid, dec, log, rep_max, state=None):
+    """The instrumented subclass of the REAL SimulationRunner.  `state`
+    holds the names/combinations of the grid that is CURRENTLY configured (it
+    changes in the reconfigure histories)."""
     rm, rs = repo_module(RUN), repo_module(RES)
-    names, combos = documented_order(grid)
+    if state is None:
+        state = {}
+        state['names'], state['combos'] = documented_order(grid)
 
     def identify(params):
-        t = tuple(params[n] for n in names)
-        return combos.index(t) if t in combos else -1
+        t = tuple(params[n] for n in state['names'])
+        if t in state['combos']:
+            return state['combos'].index(t)
+        if t not in log.unknown:
+            log.unknown.append(t)
+        return UNKNOWN + log.unknown.index(t)
 
     class Instrumented(rm.SimulationRunner):
         def __init__(self):
@@ -230,9 +252,15 @@ def make_runner(grid, dec, log, rep_max):
 
         def _run_simulation(self, current_parameters):
             v = identify(current_parameters)
-            if v < 0:
-                log.calls.append((log.run, -1, 0))
-                raise RunawayLoop('unknown parameter combination')
+            if v >= UNKNOWN:
+                # not a combination of the configured grid: recorded, the
+                # call sequence comparison reports it
+                log.calls.append((log.run, v, 0))
+                if len(log.calls) > 200:
+                    raise RunawayLoop('too many calls')
+                r = rs.SimulationResults()
+                r.add_new_result('res', rs.Result.SUMTYPE, 0)
+                return r
             a = log.att[v]
             log.att[v] = a + 1
             log.calls.append((log.run, v, a))
@@ -250,6 +278,8 @@ def make_runner(grid, dec, log, rep_max):
         def _keep_going(self, current_params, current_sim_results,
                         current_rep):
             v = identify(current_params)
+            if v >= UNKNOWN:
+                return True
             k, s = log.succ[v], log.skips[v]
             res = current_sim_results['res'][-1]
             log.keepseen.append(((log.run, v, k, s),
@@ -292,6 +322,8 @@ def _calls_class(got, want):
                 o.append(c[:2])
         return o
 
+    if any(c[1] >= UNKNOWN for c in got):
+        return ':combination-outside-the-configured-grid'
     fg, fw = first_seen(got), first_seen(want)
     if [x for x in fg if x in fw] != [x for x in fw if x in fg]:
         return ':variation-order'
@@ -322,7 +354,13 @@ def _key(site, failed_name):
     return 'C05/%s/%s' % (site, failed_name)
 
 
-def scenario(cfg, rep_max, dec, emit, idx=None, start=None):
+def regrid(grid, change):
+    """the grid after `runner.params[name] = values`"""
+    return [[n, (list(change['values']) if n == change['name'] else v), u]
+            for n, v, u in grid]
+
+
+def scenario(cfg, rep_max, dec, emit, idx=None, start=None, rep_max2=None):
     """Run the real runner and the reference on the same decisions and hand
     every comparison to `emit(name, condition)`.  Shared by the symbolic run
     (emit = ctx.prove), the replay and the concrete runs (emit = collect)."""
@@ -331,17 +369,22 @@ def scenario(cfg, rep_max, dec, emit, idx=None, start=None):
     nvar = len(combos)
     order = list(range(nvar))
     mode = cfg.get('mode', 'all')
+    # what the LAST call of the history is: simulate() or simulate(idx)
+    last_index = mode == 'index' or (mode == 'reconfigure'
+                                     and cfg['second'] == 'index')
     hi = cfg['rep'][1] if start is None else 4
     max_attempts = hi + cfg.get('max_skips', 2) + 2
     log = Log(nvar, max_attempts)
-    runner = make_runner(grid, dec, log, rep_max)
+    state = dict(names=names, combos=combos)
+    runner = make_runner(grid, dec, log, rep_max, state)
     saver = runner._simulation_results_saver
     rs = repo_module(RES)
 
-    if mode == 'index' or start is not None:
+    if last_index or start is not None:
         # no file is ever written: loader/saver of partial results are stubs
         def load_stub(current_params):
-            v = combos.index(tuple(current_params[n] for n in names))
+            t = tuple(current_params[n] for n in state['names'])
+            v = state['combos'].index(t) if t in state['combos'] else -1
             log.loads.append(v)
             if start is None or v not in start:
                 return None
@@ -366,6 +409,7 @@ def scenario(cfg, rep_max, dec, emit, idx=None, start=None):
         runner.set_results_filename('c05_never_written')
 
     # ---- the real code ---------------------------------------------------
+    order0, rep_max0 = order, rep_max
     try:
         if mode == 'index':
             runner.simulate(idx)
@@ -374,20 +418,46 @@ def scenario(cfg, rep_max, dec, emit, idx=None, start=None):
             if mode == 'twice':
                 log.new_run(1)
                 runner.simulate()
+            elif mode == 'reconfigure':
+                # re-assign one unpacked parameter through the bracket syntax
+                # of SimulationParameters (other values / length / order) ...
+                change = cfg['change']
+                new = list(change['values'])
+                if change.get('container') == 'array':
+                    new = np.array(new)
+                runner.params[change['name']] = new
+                if rep_max2 is not None:
+                    runner.rep_max = rep_max2
+                    rep_max = rep_max2
+                grid = regrid(grid, change)
+                names, combos = documented_order(grid)
+                nvar = len(combos)
+                order = list(range(nvar))
+                state.update(names=names, combos=combos)
+                log.new_run(1, nvar)
+                # ... and simulate again on the same runner
+                if last_index:
+                    runner.set_results_filename('c05_never_written')
+                    runner.simulate(idx)
+                else:
+                    runner.simulate()
     except Exception as e:  # outcome of the code under test
         emit(_raise_class(e, log, start), False)
         return log
 
     # ---- the reference ----------------------------------------------------
     site_order = order
-    if mode == 'index':
+    if last_index:
         i = int(idx)
         site_order = [i]
-    refs = [reference(site_order, rep_max, dec, run=0, start=start,
-                      max_attempts=max_attempts)]
-    if mode == 'twice':
-        refs.append(reference(site_order, rep_max, dec, run=1,
-                              max_attempts=max_attempts))
+    if mode in ('twice', 'reconfigure'):
+        refs = [reference(order0, rep_max0, dec, run=0,
+                          max_attempts=max_attempts),
+                reference(site_order, rep_max, dec, run=1,
+                          max_attempts=max_attempts)]
+    else:
+        refs = [reference(site_order, rep_max, dec, run=0, start=start,
+                          max_attempts=max_attempts)]
     ref = refs[-1]
     want_calls = [c for r in refs for c in r['calls']]
     emit('call-sequence' + _calls_class(log.calls, want_calls),
@@ -403,7 +473,7 @@ def scenario(cfg, rep_max, dec, emit, idx=None, start=None):
     emit('keep-going-arguments', _all(conds))
 
     # ---- recorded counts and merged results -------------------------------
-    if mode == 'index':
+    if last_index:
         i = site_order[0]
         emit('runned_reps', _all([not isinstance(runner.runned_reps, list),
                                   runner.runned_reps == ref['reps'][i]]))
@@ -500,7 +570,8 @@ def _site(cfg, resumed=False):
     if resumed:
         return 'simulate-resume'
     return {'all': 'simulate', 'twice': 'simulate-twice',
-            'index': 'simulate(i)'}[cfg.get('mode', 'all')]
+            'index': 'simulate(i)',
+            'reconfigure': 'simulate-reconfigure'}[cfg.get('mode', 'all')]
 
 
 def _known_keys():
@@ -509,9 +580,10 @@ def _known_keys():
 
 
 class Simulate(Harness):
-    """whole simulate(): all variations, a single variation index, and two
-    consecutive simulate() calls; symbolic rep_max, skip pattern, stop rule
-    and result values."""
+    """whole simulate(): all variations, a single variation index, two
+    consecutive simulate() calls, and histories in which an unpacked parameter
+    is re-assigned (runner.params[name] = ...) between two calls; symbolic
+    rep_max, skip pattern, stop rule and result values."""
     name = 'simulate'
     modules = ()
     builtins = False
@@ -537,7 +609,13 @@ class Simulate(Harness):
               'pair of grid g2, for pairs of g2x2 with <= 1 skip, and for '
               'every single active variation of every grid; [1,6] with <= 3 '
               'skips without unpacked parameter); result values unbounded '
-              'symbolic integers on all variations; <= 2 skips per variation')
+              'symbolic integers on all variations; <= 2 skips per variation; '
+              'reconfigure histories: deterministic first simulate(), one '
+              'unpacked parameter re-assigned through params[name] = values '
+              '(other values / shorter / longer / re-ordered / ndarray), then '
+              'simulate() or simulate(symbolic idx) with symbolic behaviour '
+              'on the new grid, rep_max in [1,2] quick / [1,3] thorough, '
+              'optionally a second symbolic rep_max')
     stubs = ('_run_simulation/_keep_going: instrumented subclass (the hooks '
              'the class documents for users)',
              'simulate(i) only: load_partial_results -> None, '
@@ -593,22 +671,73 @@ class Simulate(Harness):
         unit('g0', 'twice', [0], [1, 2] if q else [1, 3], 1 if q else 2)
         if not q:
             unit('g2', 'twice', [0, 1], [1, 2], 1)
+
+        # histories: simulate(); runner.params[name] = other values / other
+        # length / other order; simulate() or simulate(idx) again.  The first
+        # call is deterministic (no skip, no early stop), the symbolic
+        # behaviour is on the `active` variations of the NEW grid.
+        def reconf(g, name, values, second, active, rep, max_skips, **kw):
+            rep_change = kw.pop('rep_change', False)
+            out.append(dict(grid=g, mode='reconfigure', second=second,
+                            change=dict(name=name, values=values, **kw),
+                            active=active, rep=rep, max_skips=max_skips,
+                            rep_change=rep_change))
+
+        r2, sk = ([1, 2], 1) if q else ([1, 3], 2)
+        reconf('g2', 'p', [30, 40], 'all', [0, 1], r2, sk)
+        reconf('g2', 'p', [20, 10, 30], 'all', [0, 2], r2, sk)
+        reconf('g2x2', 'a', [20], 'all', [0, 1], r2, sk)
+        reconf('g2x2', 'b', [2, 1], 'index', [0, 1, 2, 3], r2, sk)
+        reconf('g2', 'p', [10, 20, 5], 'index', [0, 1, 2], r2, sk,
+               container='array')
+        reconf('g1x2', 'a', [10, 11], 'all', [1, 2], r2, 1, rep_change=True)
+        if not q:
+            reconf('g2', 'p', [10, 20], 'all', [0, 1], r2, sk)
+            reconf('g2', 'p', [5], 'index', [0], [1, 5], 2)
+            reconf('g3', 'p', [30, 10], 'all', [0, 1], r2, sk,
+                   container='array')
+            reconf('g2x3', 'z', [3, 1], 'all', [0, 3], r2, sk)
+            reconf('g2x3', 'y', [20, 30, 10], 'index', list(range(9)), r2, 1)
+            reconf('g2x1x2', 'k', [4, 5], 'all', [0, 7], r2, 1,
+                   rep_change=True)
         return out
+
+    @staticmethod
+    def _last_grid(cfg):
+        """number of variations of the grid the last call runs on, or None
+        when the last call is simulate() without index"""
+        grid = GRIDS[cfg['grid']]
+        if cfg['mode'] == 'reconfigure':
+            grid = regrid(grid, cfg['change'])
+            if cfg['second'] != 'index':
+                return None
+        elif cfg['mode'] != 'index':
+            return None
+        return len(documented_order(grid)[1])
 
     def sym(self, ctx, cfg):
         rep_max = ctx.integer('rep_max', cfg['rep'][0], cfg['rep'][1])
-        dec = SymDec(ctx, cfg['active'], cfg['max_skips'])
-        idx = None
-        if cfg['mode'] == 'index':
-            n = len(documented_order(GRIDS[cfg['grid']])[1])
+        reconf = cfg['mode'] == 'reconfigure'
+        dec = SymDec(ctx, cfg['active'], cfg['max_skips'],
+                     runs=[1] if reconf else None)
+        idx = rep_max2 = None
+        n = self._last_grid(cfg)
+        if n is not None:
             idx = ctx.integer('idx', 0, n - 1)
-        scenario(cfg, rep_max, dec, ctx.prove, idx=idx)
+        if cfg.get('rep_change'):
+            rep_max2 = ctx.integer('rep_max2', cfg['rep'][0], cfg['rep'][1])
+        scenario(cfg, rep_max, dec, ctx.prove, idx=idx, rep_max2=rep_max2)
 
     def _run_table(self, cfg, table):
         col = _Collect()
         rep_max = int(table.get('rep_max', cfg['rep'][0]))
-        idx = int(table.get('idx', 0)) if cfg['mode'] == 'index' else None
-        log = scenario(cfg, rep_max, TableDec(table), col, idx=idx)
+        idx = rep_max2 = None
+        if self._last_grid(cfg) is not None:
+            idx = int(table.get('idx', 0))
+        if cfg.get('rep_change'):
+            rep_max2 = int(table.get('rep_max2', cfg['rep'][0]))
+        log = scenario(cfg, rep_max, TableDec(table), col, idx=idx,
+                       rep_max2=rep_max2)
         return col, log, rep_max, idx
 
     def replay(self, cfg, name, model):
@@ -618,6 +747,8 @@ class Simulate(Harness):
             key = _key(_site(cfg), _pick(col.failed, name))
         return dict(reproduced=bool(col.failed), key=key,
                     detail=dict(grid=GRIDS[cfg['grid']], mode=cfg['mode'],
+                                reassigned=cfg.get('change'),
+                                rep_max2=model.get('rep_max2'),
                                 rep_max=rep_max, index=idx,
                                 decisions={k: v for k, v in model.items()
                                            if k[:4] in ('skip', 'keep')},
@@ -636,11 +767,13 @@ class Simulate(Harness):
                           no_first=first_known and j % 4 != 0)
             rep_max = rng.randrange(1, 9)
             c = dict(cfg, rep=[1, 16], max_skips=60)
-            idx = None
-            if cfg['mode'] == 'index':
-                idx = rng.randrange(len(documented_order(GRIDS[cfg['grid']])[1]))
+            idx = rep_max2 = None
+            if self._last_grid(cfg) is not None:
+                idx = rng.randrange(self._last_grid(cfg))
+            if cfg.get('rep_change'):
+                rep_max2 = rng.randrange(1, 9)
             col = _Collect()
-            scenario(c, rep_max, dec, col, idx=idx)
+            scenario(c, rep_max, dec, col, idx=idx, rep_max2=rep_max2)
             bad = [f for f in col.failed
                    if _key(_site(cfg), f) not in known]
             if bad:
@@ -862,7 +995,9 @@ class Lookup(Harness):
               'dictionary; zero unpacked parameters (concrete)')
     assumptions = (ASSUMPTIONS[1], )
     outside = ('duplicate values inside one unpacked parameter (list.index '
-               'finds only the first)', 'non-integer parameter values')
+               'finds only the first)',
+               'float parameter values symbolically (float64 ndarrays are '
+               'probed concretely with adversarial close-valued grids)')
 
     def configs(self, tier):
         q = tier == 'quick'
@@ -959,7 +1094,91 @@ class Lookup(Harness):
                 raise AssertionError('lookup deviates: %r %r %r' %
                                      (col.failed, vals, fixed))
             n += 1
-        return n
+        return n + self._float_probe(cfg, rng)
+
+    # -- float parameter grids (not reachable symbolically: the proxies live
+    #    in object arrays, a float64 ndarray is a different code path) -------
+    @staticmethod
+    def _float_families(k, rng):
+        """1-D float grids of length k whose DISTINCT values are close"""
+        nxt = [1.5]
+        while len(nxt) < k:
+            nxt.append(float(np.nextafter(nxt[-1], 2.0)))
+        sixth = [0.123456 * (1 + 3e-6 * j) for j in range(k)]
+        fams = [
+            ('tiny-powers', [4e-9, 1e-9, 2e-9, 8e-10, 3e-10][:k]),
+            ('differ-in-6th-digit', sixth[::-1]),
+            ('around-zero', [0.0, 1e-9, -1e-9, 5e-10, -5e-10][:k]),
+            ('large-neighbours', [1e9 + 2 - j for j in range(k)]),
+            ('adjacent-doubles', nxt),
+            ('dB-to-linear', [10**(x / 10.) for x in
+                              rng.sample([-3., 0., 0.0001, 5., 10., 10.0001],
+                                         k)]),
+        ]
+        return fams
+
+    def _float_probe(self, cfg, rng):
+        from pysym.runner import ConcreteViolation
+        if not cfg['dims'] or not cfg['fixed'] or cfg['extra'] is not None:
+            return 0
+        par, rs = repo_module(PAR), repo_module(RES)
+        dims = [k + 2 for k in cfg['dims']]  # longer grids than the symbolic
+        names = ['n%d' % j for j in range(len(dims))]
+        coords = list(itertools.product(*[range(k) for k in dims]))
+        nfam = len(self._float_families(1, rng))
+        count = 0
+        for shift in range(nfam):
+            fam, d = {}, {}
+            for k, n_ in reversed(list(enumerate(names))):
+                label, v = self._float_families(dims[k], rng)[
+                    (shift + k) % nfam]
+                fam[n_] = label
+                d[n_] = np.array(v, dtype=float)
+                assert len(set(v)) == len(v)
+            d['c'] = 7
+            params = par.SimulationParameters.create(d)
+            for n_ in names:
+                params.set_unpack_parameter(n_)
+            results = rs.SimulationResults()
+            results.set_parameters(params)
+            for i in range(len(coords)):
+                results.append_result(rs.Result.create(
+                    'res', rs.Result.SUMTYPE, 100 + i))
+            # fixed values: every grid position, plus one value that is close
+            # to a grid value but is not in the grid
+            choices = []
+            for n_ in cfg['fixed']:
+                v = d[n_]
+                near = float(v[0]) * (1 + 1e-7) if v[0] != 0 else 1e-12
+                assert near not in v
+                choices.append([(n_, x) for x in v] + [(n_, near)])
+            for j, combo in enumerate(itertools.product(*choices)):
+                q = {n_: (float(x) if j % 2 else x) for n_, x in combo}
+                want = [i for i, co in enumerate(coords) if all(
+                    d[n_][co[names.index(n_)]] == x for n_, x in q.items())]
+                try:
+                    got = [int(i) for i in params.get_pack_indexes(q)]
+                except ValueError:
+                    got = 'ValueError'
+                detail = dict(parameters={n_: [repr(float(x)) for x in d[n_]]
+                                          for n_ in names}, families=fam,
+                              fixed={n_: repr(float(x))
+                                     for n_, x in q.items()},
+                              got=got, expected=want or '[] or ValueError')
+                ok = got == want or (not want and got == 'ValueError')
+                if not ok:
+                    raise ConcreteViolation(
+                        'C05/get_pack_indexes/float-array-parameter:'
+                        'close-but-distinct-values', detail)
+                if want:
+                    out = results.get_result_values_list('res', q)
+                    if list(out) != [100 + i for i in want]:
+                        raise ConcreteViolation(
+                            'C05/get_result_values_list/float-array-'
+                            'parameter:close-but-distinct-values',
+                            dict(detail, values=[float(o) for o in out]))
+                count += 1
+        return count
 
 
 HARNESSES = [Simulate(), Resume(), Lookup()]
